@@ -3,7 +3,7 @@
       cleanup, entity moves, creation, removal and registration of component types. *)
 From Arche Require Import Model.Base Model.Pool Model.Filter Model.World Model.Ops
   Proofs.Tables Proofs.Bits Proofs.Store Proofs.Graph Proofs.WorldInv Proofs.Cursor
-  Proofs.RelGraph Proofs.RelWorld Proofs.QueryExact.
+  Proofs.RelGraph Proofs.RelWorld Proofs.QueryExact Proofs.GhostBase Proofs.GhostGraph.
 
 (** ** swap-remove is removal up to order *)
 Lemma swap_remove_perm {A} (l : list A) i x : l !! i = Some x -> x :: swap_remove i l ≡ₚ l.
@@ -637,14 +637,24 @@ Proof.
   - eapply (rgraph_ok_same_nodes w); try done. intros tid t Ht. exists t. done.
 Qed.
 
-Theorem cache_step w A o :
+(** The world a panicking creation / exchange leaves behind keeps the cache invariant: new
+    nodes are inactive, a new table is entered in exactly the matching entries. *)
+Lemma ghost_cache_ok w o :
+  rgraph_ok w -> cache_ok w -> Forall (fun id => id < length (w_reg w)) (ghost_ids o) -> cache_ok (ghost_of w o).
+Proof.
+  intros G C Hreg. destruct (ghost_of_rel w o G Hreg) as [src add rem target st sn mask dst Hst Hsn Hm Hr H|E G1 Hc Ht].
+  - by eapply (cache_ok_foc w src add rem target st sn mask).
+  - by apply (cache_ok_ext w).
+Qed.
+
+Lemma cache_step0 w A o :
   R w A -> cache_ok w -> op_pre2 A o ->
-  R (res_world (step w o)) (astep A o (snd (fst (step w o)))) /\ cache_ok (res_world (step w o)).
+  R (res_world (step0 w o)) (astep A o (snd (fst (step0 w o)))) /\ cache_ok (res_world (step0 w o)).
 Proof.
   intros HR C Hpre.
-  assert (Hcore : op_pre A o -> cache_ok (res_world (step w o)) ->
-                  R (res_world (step w o)) (astep A o (snd (fst (step w o)))) /\ cache_ok (res_world (step w o))).
-  { intros Hp Hc. split; [by apply rel_step|done]. }
+  assert (Hcore : op_pre A o -> cache_ok (res_world (step0 w o)) ->
+                  R (res_world (step0 w o)) (astep A o (snd (fst (step0 w o)))) /\ cache_ok (res_world (step0 w o))).
+  { intros Hp Hc. split; [by apply rel_step0|done]. }
   pose proof HR as [K Hr Hu He].
   destruct o; try (by destruct Hpre); simpl in Hpre; try (apply Hcore; [exact Hpre|]); simpl.
   - (* ONew *)
@@ -716,6 +726,19 @@ Proof.
     destruct (register_comp w key isrel zs) as [[w1 id]|] eqn:H; simpl; [|done]. by eapply cache_ok_register.
   - (* OSetListener *) exact C.
 Qed.
+
+Lemma op_pre2_ghost_ids A o : op_pre2 A o -> ids_reg A (ghost_ids o).
+Proof. destruct o; try (intros; by apply Forall_nil); apply op_pre_ghost_ids. Qed.
+
+Theorem cache_step w A o :
+  R w A -> cache_ok w -> op_pre2 A o ->
+  R (res_world (step w o)) (astep A o (snd (fst (step w o)))) /\ cache_ok (res_world (step w o)).
+Proof.
+  intros HR C Hpre. destruct (step_cases w o) as [[-> _]|[_ ->]]; [by apply cache_step0|].
+  pose proof (op_pre2_ghost_ids A o Hpre) as Hids. simpl. split; [by apply ghost_R|].
+  pose proof HR as [[[S G] _ _] Hr _ _]. unfold ids_reg in Hids. rewrite Hr in Hids. by apply ghost_cache_ok.
+Qed.
+
 
 Fixpoint pre_run2 (w : world) (A : astate) (ops : list op) : Prop :=
   match ops with
